@@ -41,7 +41,11 @@ RULE = ('conforming tet / hex bricks (1..2 or 1..3 cells per direction, optional
         'Stream order1: the same tet / hex bricks promoted to tet2 / hex2 (straight mid-edge nodes, own ids, node table '
         'shuffled so that corner and mid-edge nodes are interleaved; non-trivial only when they are), nodal mode with '
         'order1_only=True, fields defined on all nodes; tet2 with effective-volume weighting or none, hex2 without '
-        'volume weighting.')
+        'volume weighting. '
+        'Stream scaled: the same meshes with every coordinate multiplied by 1/1024, 500, 2000 (cell size in coordinate units; '
+        'kernel alpha scaled along), all tolerances relative. Stream same-object: operator built, node positions of the SAME '
+        'object replaced through the public setter (orientation-preserving rational affine map, no direction fixed), '
+        'operator built again without clearing any cache; the property is evaluated against the new positions.')
 ASSUMPTIONS = [
     'floating point: the real matrices are compared with the exact rational model within 1e-9 * max(1, cond(M)) * '
     'scale (np.linalg.inv / sqrt / exp accuracy is runtime, not modelled)',
@@ -493,6 +497,80 @@ def gen_opts(ctx, combos):
                'alpha': rnd.choice([1.0, 0.5, 2.0, 0.125]), 'fseed': rnd.randint(0, 10**6)}
 
 
+# absolute length scales of the stream `scaled` (cell size in coordinate units; the main stream has cell size ~1): the
+# property is scale free (the gradient of a.x + b is a in every length unit), absolute tolerances in the code are not
+SCALES = [F(1, 1024), F(500), F(2000)]
+
+
+def scaled(m, s):
+    """the same mesh in another length unit: every coordinate multiplied by the exact rational s"""
+    out = dict(m)
+    out['nodes'] = [(i, tuple(x * s for x in p)) for i, p in m['nodes']]
+    return out
+
+
+def scale_opt(opt, s):
+    """the similar problem at scale s: exp(-alpha d) and exp(-alpha d^2 / 2) keep their values when alpha is divided by s
+    resp. s^2, so the weights (up to the common factor s^3 of the volumes) and the condition numbers do not change"""
+    out = dict(opt)
+    out['scale'] = str(s)
+    out['alpha'] = opt['alpha'] / float(s) ** (2 if opt['kernel'] == 'gauss' else 1)
+    return out
+
+
+def remap(rnd, m):
+    """new node positions for the same mesh object: an orientation-preserving rational affine map that is not the
+    identity in any direction (diagonal entries != 1), so that cells stay valid and neighbourhoods keep spanning space"""
+    while True:
+        B = [[F(rnd.choice([1, 3, 3, 6, 8]), 4) if r == c else F(rnd.randint(-1, 1), 4) for c in range(3)] for r in range(3)]
+        if MG.det3(*B) > 0 and all(B[r][r] != 1 for r in range(3)):
+            break
+    t = [F(rnd.randint(-8, 8), 2) for _ in range(3)]
+    out = dict(m)
+    out['nodes'] = [(i, tuple(sum(B[r][c] * p[c] for c in range(3)) + t[r] for r in range(3))) for i, p in m['nodes']]
+    return out
+
+
+def set_positions(fd, m2):
+    """replace the node positions of the SAME FEMData object through the public setter"""
+    fd.nodes.data = np.array([[float(v) for v in p] for _, p in m2['nodes']])
+
+
+def history_case(ctx, m, m2, opt0, opt, fields, record=True):
+    """stream `same-object`: operator (opt0) -> node positions replaced through `fem_data.nodes.data = …` -> operator (opt)
+    again on the SAME object, no cache cleared in between.  The property is stated for the mesh as it is now: constants
+    -> 0, affine exactness and convenience = matrices are evaluated by the ordinary oracle against the NEW positions (what
+    a fresh object built from them gives), and the matrices are compared with the model computed from the new positions.
+    Weights are whatever the real call uses (femio keeps the stored element volumes of the old positions: the theorems and
+    the oracle hold for every positive weight function, and the model takes the captured weights)."""
+    fd = fresh(m)
+    try:
+        MG.quiet(fd.calculate_spatial_gradient_adjacency_matrices, **call_kwargs(opt0))
+    except Exception as e:      # singular first geometry: the history still continues on the same object
+        ctx.count(f'stream:same-object:first call raised {type(e).__name__}')
+    set_positions(fd, m2)
+    fails, info = oracle(ctx, m2, opt, fields, fd=fd)
+    fails = [('same-object:' + sig, 'after `nodes.data = new positions` on the same object: ' + what, obs)
+             for sig, what, obs in fails]
+    if not record:
+        return fails, info
+    caseinfo = {'mesh': MG.to_json(m), 'mesh2': MG.to_json(m2), 'opt0': opt0, 'opt': opt, 'fields': fields,
+                'history': 'operator(opt0) on mesh; nodes.data = positions of mesh2; operator(opt) on the same object'}
+    short = {'history': 'same-object', 'mesh': MG.describe(m), 'opt0': opt0, 'opt': opt}
+    ctx.case(('same-object', repr(MG.to_json(m)), repr(MG.to_json(m2)), repr(sorted(opt0.items())), repr(sorted(opt.items()))),
+             sample={**short, 'info': info}, nontrivial=info.get('n', 0) >= 4)
+    ctx.count('stream:same-object:cases')
+    ctx.count(f'stream:same-object:mode:{opt["mode"]}')
+    ctx.count('stream:same-object:first call ' + ('same options' if opt0 == opt else 'other options'))
+    if info.get('singular'):
+        ctx.count('stream:same-object:non-spanning (outside the quantifier)')
+    for sig, what, obs in fails:
+        ctx.fail(sig, what, caseinfo, obs)
+    if ctx.driver is not None and not info.get('singular'):
+        correspond(ctx, m2, opt, fd, fields, {**short, 'after': 'nodes.data = new positions (same object)'} if not fails else caseinfo)
+    return fails, info
+
+
 def one_case(ctx, m, opt, fields):
     desc = MG.describe(m)
     caseinfo = {'mesh': MG.to_json(m), 'opt': opt, 'fields': fields}
@@ -515,6 +593,7 @@ def one_case(ctx, m, opt, fields):
     ctx.count(f'kernel:{opt["kernel"]}')
     ctx.count(f'moment:{opt["moment"]}')
     ctx.count(f'consider_volume:{opt["consider_volume"]}')
+    ctx.count('length scale (cell size in coordinate units):' + opt.get('scale', '1'))
     ctx.count('geometry:' + ('jittered' if m.get('jittered') else 'affine' if m.get('affine') else 'grid'))
     if info.get('singular'):
         ctx.count(f'stream:{"near-degenerate" if info.get("near_degenerate") else "non-spanning"}(real raised {info.get("raised")}; outside the quantifier)')
@@ -558,6 +637,39 @@ def run(ctx):
                    'consider_volume': m['kind'] == 'tet2' and rnd.random() < .5, 'effective': True,
                    'alpha': rnd.choice([1.0, 0.5, 2.0, 0.125]), 'fseed': rnd.randint(0, 10**6)}
             one_case(ctx, m, opt, gen_fields(rnd))
+    # stream scaled: the same kind of meshes in other length units (cell size 1/1024, 500, 2000 coordinate units; the
+    # kernel parameter scaled along so that the problem is similar); inside the quantifier (the property is scale free),
+    # tolerances are relative to the row scale of the operator and the magnitude of the field as everywhere else.
+    # moment-corrected and volume-weighted variants are favoured (volumes carry the cube of the scale)
+    sc = list(itertools.product(['nodal', 'elemental'], [1, 2, 3], KERNELS, [True, True, False]))
+    for s in SCALES:
+        for rep in range(ctx.n(3, 6)):
+            kind = ['tet', 'hex'][(rep + SCALES.index(s)) % 2]
+            m = scaled(gen_mesh(ctx, kind, kind == 'hex' or rnd.random() < .3), s)
+            n_meshes += 1
+            rnd.shuffle(sc)
+            for opt in list(gen_opts(ctx, sc[:ctx.n(6, 9)])):
+                opt['consider_volume'] = rnd.random() < .7
+                fields = gen_fields(rnd)
+                fields[1]['b'] *= float(s)
+                ctx.count('stream:scaled:cases')
+                one_case(ctx, m, scale_opt(opt, s), fields)
+    # stream same-object: history on ONE object (operator, positions replaced through the public setter, operator again)
+    hs = list(itertools.product(['elemental', 'elemental', 'nodal'], [1, 2, 3], KERNELS, [True, True, False]))
+    rnd.shuffle(hs)
+    hs.sort(key=lambda c: not (c[0] == 'elemental' and c[3]))       # every run starts with elemental + moment matrix
+    hs = hs[:4] + rnd.sample(hs[4:], len(hs) - 4)
+    for k, opt in enumerate(list(gen_opts(ctx, hs[:ctx.n(15, 45)]))):
+        if k % 3 == 0:
+            kind = ['tet', 'hex'][(k // 3) % 2]
+            while True:
+                m = gen_mesh(ctx, kind, kind == 'hex')
+                if len(m['nodes']) >= 18:        # at least 2 x 2 x 1 cells: enough elements for spanning neighbourhoods
+                    break
+            m2 = remap(rnd, m)
+            n_meshes += 1
+        opt0 = dict(opt) if rnd.random() < .5 else {**next(gen_opts(ctx, [rnd.choice(hs)])), 'mode': opt['mode']}
+        history_case(ctx, m, m2, opt0, opt, gen_fields(rnd))
     # observation stream (never reported through fail): order1_only with mean-volume weighting on a second-order mesh
     try:
         MG.quiet(fresh(last_tet2).calculate_spatial_gradient_adjacency_matrices, mode='nodal', order1_only=True,
@@ -571,6 +683,9 @@ def run(ctx):
 def replay(ctx, obj):
     case = obj['input']
     m = MG.from_json(case['mesh'])
-    fails, info = oracle(ctx, m, case['opt'], case['fields'])
+    if 'mesh2' in case:       # stream same-object: re-run the history
+        fails, info = history_case(ctx, m, MG.from_json(case['mesh2']), case['opt0'], case['opt'], case['fields'], record=False)
+    else:
+        fails, info = oracle(ctx, m, case['opt'], case['fields'])
     return {'fails': bool(fails), 'failures': [{'signature': s, 'what': w, 'observed': o} for s, w, o in fails],
             'info': info}
